@@ -149,3 +149,6 @@ Theorem delta_k_bookkeeping p :
 Proof.
   repeat split; try reflexivity. unfold pm_ff, pm_dksi. ring.
 Qed.
+
+Lemma limit_hypotheses_example : 0 < 4e-6 /\ 0 < 9e-6 /\ 0 <= 6.25e-6 /\ (0.00007 <> 0).
+Proof. repeat split; lra. Qed.
